@@ -126,6 +126,10 @@ func (p *c06Prop) Gen(r *Rng, i int, tier string) interface{} {
 			pk.NF = 1
 		case 1:
 			pk.Flag = r.Chance(10)
+		case 15:
+			// AUTH: reason 0x00 / 0x18 continue / 0x19 re-authenticate, with or without a method property
+			pk.QoS = r.Intn(3)
+			pk.Flag = r.Bool()
 		}
 		return pk
 	}
@@ -144,6 +148,9 @@ func (p *c06Prop) Gen(r *Rng, i int, tier string) interface{} {
 		}
 	}
 	legal := []int{3, 3, 4, 5, 6, 7, 8, 8, 10, 12, 12}
+	if c.Ver == 5 {
+		legal = append(legal, 15)
+	}
 	n := r.Intn(9)
 	for k := 0; k < n; k++ {
 		if r.Chance(85) {
@@ -258,7 +265,18 @@ func c06Build(ver mqttp.ProtocolVersion, pk c06Pkt, k int) ([]byte, error) {
 			return nil, err
 		}
 		if pk.T == 15 {
-			_ = m.PropertySet(mqttp.PropertyAuthMethod, "SCRAM-SHA-1")
+			// the vlapi AUTH encoder is unusable (reason code overwritten by the property section): by hand
+			reason := []byte{0x00, 0x18, 0x19}[pk.QoS%3]
+			body := []byte{reason}
+			if pk.Flag {
+				method := "SCRAM-SHA-1"
+				props := append([]byte{0x15, 0, byte(len(method))}, []byte(method)...)
+				body = append(body, byte(len(props)))
+				body = append(body, props...)
+			} else {
+				body = append(body, 0)
+			}
+			return append([]byte{0xF0, byte(len(body))}, body...), nil
 		}
 	}
 	return mqttp.Encode(m)
